@@ -35,7 +35,7 @@ namespace rkcommon {
       template <typename U>
       struct rebind
       {
-        using other = aligned_allocator<U>;
+        using other = aligned_allocator<U, alignment>;
       };
 
       // Implementation //
